@@ -22,6 +22,9 @@ CLAIMED = {
     "C17": ("for every member m of L(p) up to length 3 (4): some extracted prefix/suffix/inner literal occurs in m unless the sequence is empty or flagged partial; also under small extractor limits", "§5 C17"),
     "C18": ("Go level only: exported simd primitives (pure-Go SWAR/generic implementations, CPU flags false) vs their one-line scalar definitions with symbolic contents, needles and table bits at lengths straddling the 8- and 16-byte chunk boundaries; the assembly kernels are not covered", "§5 C18"),
     "C19": ("each specialised searcher constructed through its own applicability predicate (CharClassSearcher, CompositeSearcher, CompositeSequenceDFA, BranchDispatcher, anchored-literal matcher) and each strategy end-to-end through meta.Engine.FindIndicesAt/IsMatch on the whitelist-boundary corpus P19, vs the reference", "§5 C19"),
+    "C12": ("results under a grid of boundary configurations (each Validate() range end, each boolean) vs the default configuration and vs the plain NFA simulation, on every byte string within the bound", "§5 C12"),
+    "C13": ("bounded call histories on one value (nondeterministic earlier API, symbolic earlier and final haystacks) vs a fresh value; inductive step over an arbitrary recycled BoundedBacktracker state (invariant + result equality, including generation wrap); lazy-DFA cache reuse under tiny capacities", "§5 C13"),
+    "C20": ("capacity invariants of the lazy DFA cache after every search of a bounded history under tiny capacities, visited-table caps of the backtracker, and no growth of the cells reachable from the Regex when the same searches are repeated (executor heap model); the zero-allocation clause is not covered", "§5 C20"),
     "C14": ("PikeVM, BoundedBacktracker, lazy DFA (forward/anchored/earliest/reverse, tiny caches), one-pass DFA driven directly vs stdlib reference or explicit decline", "§5 C14"),
 }
 
